@@ -1,6 +1,6 @@
 """C12 — A context keeps its own state."""
 
-from ..rules import isolation
+from ..rules import isolation, pairing
 
 
 def run(ctx, rep):
@@ -8,4 +8,5 @@ def run(ctx, rep):
     isolation.rule_fresh_vm_pointer_cleared(ctx, rep, "C12-R3")
     isolation.rule_nested_globals(ctx, rep, "C12-R4")
     isolation.rule_no_stale_deadline(ctx, rep, "C12-R5")
+    pairing.rule_contextmanager_cleanup(ctx, rep, "C12-R6", where=lambda f: f.module.name in ("context", "vm", "values"), what=" of the runtime")
     rep.undecided += ["agreement with the abstract per-context dictionary model over histories (runtime property)"]
